@@ -116,7 +116,7 @@ func reversed(a []int) []int {
 func H_RuntimeChain() {
 	pre := zv.Choose(5)
 	eol := eols[zv.Choose(len(eols))]
-	earlier := zv.Choose(2) == 1
+	earlier := zv.Choose(4) // 0: none; otherwise an earlier exception handled 0, 1 or 2 calls above its raise point
 	d := zv.Int("D", 0, 2)
 	k := zv.Int("K", 1, 2)
 	dd, kk := 0, 1
@@ -133,12 +133,56 @@ func H_RuntimeChain() {
 	b.add("输入D、K、Z")
 	preamble(b, pre)
 	fault := [3][3]int{}
+	// where the planted fault sits inside its statement: 0 in a block guarded
+	// by the symbolic raise point; otherwise (only at the chosen raise point) in
+	// a 每当 condition on its second pass, in a 再如 condition, in the statement
+	// right after a finished block, or in a nested block of a loop's second pass
+	shape := zv.Choose(5)
 	guard := func(ind string, lvl, st int) {
-		b.add(fmt.Sprintf("%s如果 D == %d 且 K == %d：", ind, lvl, st))
-		fault[lvl][st] = b.add(ind + "    令W = 1 / Z")
+		if shape == 0 {
+			b.add(fmt.Sprintf("%s如果 D == %d 且 K == %d：", ind, lvl, st))
+			fault[lvl][st] = b.add(ind + "    令W = 1 / Z")
+			return
+		}
+		if lvl != dd || st != kk {
+			return
+		}
+		tag := fmt.Sprintf("%d%d", lvl, st)
+		switch shape {
+		case 1:
+			b.add(ind + "令轮" + tag + " = 0")
+			fault[lvl][st] = b.add(ind + "每当 1 / {1 - 轮" + tag + " + Z} > 0：")
+			b.add(ind + "    令空转 = 1")
+			b.add(ind + "    轮" + tag + " = 轮" + tag + " + 1")
+		case 2:
+			b.add(ind + "如果 Z == 1：")
+			b.add(ind + "    令空转 = 1")
+			fault[lvl][st] = b.add(ind + "再如 1 / Z == 1：")
+			b.add(ind + "    令空转 = 2")
+		case 3:
+			b.add(ind + "如果 Z == 0：")
+			b.add(ind + "    令空转 = 1")
+			fault[lvl][st] = b.add(ind + "令W" + tag + " = 1 / Z")
+		default:
+			b.add(ind + "以项遍历【1，0】：")
+			b.add(ind + "    令空转 = 项")
+			b.add(ind + "    如果 项 == Z：")
+			fault[lvl][st] = b.add(ind + "        令W = 1 / 项")
+		}
 	}
-	b.add("如何先前？")
+	b.add("如何抛者？")
 	b.add("    抛出异常：“早”！")
+	b.add("如何转手？")
+	b.add("    （抛者）")
+	b.add("如何先前？")
+	switch earlier {
+	case 2:
+		b.add("    （抛者）")
+	case 3:
+		b.add("    （转手）")
+	default:
+		b.add("    抛出异常：“早”！")
+	}
 	b.add("    拦截异常：")
 	b.add("        输出 0")
 	b.add("如何F2？")
@@ -152,7 +196,7 @@ func H_RuntimeChain() {
 	callF2 := b.add("    令R2 = （F2）")
 	guard("    ", 1, 2)
 	b.add("    输出 100")
-	if earlier {
+	if earlier > 0 {
 		b.add("令R0 = （先前）")
 	}
 	guard("", 0, 1)
@@ -176,7 +220,7 @@ func H_RuntimeChain() {
 	default:
 		want = []int{callF1, callF2, fault[2][kk]}
 	}
-	zv.Observe("report", fmt.Sprintf("pre=%d eol=%q earlier=%v raise=%d/%d got=%v want=%v", pre, eol, earlier, dd, kk, nums, want))
+	zv.Observe("report", fmt.Sprintf("pre=%d eol=%q earlier=%d shape=%d raise=%d/%d got=%v want=%v", pre, eol, earlier, shape, dd, kk, nums, want))
 	zv.Assert(sameInts(nums, want) || sameInts(nums, reversed(want)), "the report lists the line of the innermost statement and exactly the calls active at that moment (physical line numbers)")
 	// quoted lines are the source lines with those numbers
 	okQuotes := true
